@@ -192,7 +192,10 @@ def run_discrete(cfg, pool):
         out["class"] = type(reg).__name__
         if cfg["kind"] in ("ps_inter_region", "region_inter_ps"):
             o = build(cfg["spec"])
-            out["in_region"] = [bool(o.containsPoint(Vector(*pool[i]))) for i in cfg["A"]]
+            # the region's own answer (height-agnostic for rectangles / polygons: C16 finding F18) and 3-D membership
+            out["foot_region"] = [bool(o.containsPoint(Vector(*pool[i]))) for i in cfg["A"]]
+            zz = float(o.z) if isinstance(o, R.PolygonalRegion) else None
+            out["in_region"] = [f and (zz is None or pool[i][2] == zz) for f, i in zip(out["foot_region"], cfg["A"])]
         if cfg["kind"] in ("gen_inter_poly", "gen_diff_poly"):
             # independent 3-D membership: xy inside the polygon (shapely) AND the height of the planar region
             o = build(cfg["spec"])
